@@ -95,7 +95,7 @@ CLAIMED["C03"] = ("§0.6 / §4 C03",
 
 CLAIMED["C05"] = ("§0.6 / §4 C05",
     "CFG gates on the final closedness verdict (checkTypos) and on the required-field check (validator.validate)",
-    "Narrow: decides the shape of the final verdicts only — a 'field not allowed' error is produced only for present arcs that are neither hidden/definition/let nor supported by evidence, every arc failing both tests is reported before the next arc and the combined error is attached, and final validation reports every arc still ArcRequired. It does NOT decide which conjuncts provide evidence for which field (defID containment, replacement sets, pattern matching), which is the run-time core of the property.",
+    "Narrow: decides the shape of the final verdicts only — a 'field not allowed' error is produced only for present arcs that are neither hidden/definition/let nor supported by evidence, every arc failing both tests is reported before the next arc and the combined error is attached, final validation reports every arc still ArcRequired; plus the finite skeleton of field-kind unification (ArcType order, updateArcType keeps the strictly more restrictive kind, `?`/`!` marker tables in both directions, allowedInClosed true exactly for hidden/definition/let labels). It does NOT decide which conjuncts provide evidence for which field (defID containment, replacement sets, pattern matching), which is the run-time core of the property.",
     "evidence bookkeeping is value-level and not decided")
 
 CLAIMED["C04"] = ("§0.6 / §4 C04",
